@@ -219,7 +219,14 @@ def _verify_variant(r, unit, cpath, ranges, vname, defines, bdir, tier):
         ib = gb
     else:
         cmd = ['goto-instrument', '--dfcc', unit.entry, '--enforce-contract', unit.enforce]
-        for g in unit.replace:
+        reps = list(unit.replace)
+        if reps:
+            # only callees that are actually called exist in the goto binary
+            rc0, out0, err0, _ = run(['goto-instrument', '--list-undefined-functions', gb], 120)
+            undefined = set(l.strip() for l in out0.split('\n'))
+            reps = [g for g in reps if g in undefined]
+            r.replaced = reps
+        for g in reps:
             cmd += ['--replace-call-with-contract', g]
         if unit.loop_contracts:
             cmd += ['--apply-loop-contracts']
@@ -228,7 +235,8 @@ def _verify_variant(r, unit, cpath, ranges, vname, defines, bdir, tier):
         rc, out, err, dt = run(cmd, 300)
         if rc != 0 or not os.path.exists(ib):
             raise ToolError('goto-instrument failed on %s: %s' % (unit.name, (out + err)[-1500:]))
-    flags = list(BASE_CHECKS) + list(unit.flags)
+    # unit.drop_checks (optional): base checks a unit switches off, with the reason in its assumptions
+    flags = [f for f in BASE_CHECKS if f not in getattr(unit, 'drop_checks', ())] + list(unit.flags)
     if unit.obj_bits:
         flags += ['--object-bits', str(unit.obj_bits)]
     unw = []
@@ -282,7 +290,11 @@ def _verify_variant(r, unit, cpath, ranges, vname, defines, bdir, tier):
                             % (unit.name, vname, nl, r.loop_steps))
     # vacuity: every line of the extracted bodies for which cbmc has a coverage goal
     # must be reachable under the contract's precondition
-    if unit.cover and not r.failed and unit.mode == 'unwound':
+    if 'CXC_NOCOVER' in alld:
+        # a variant whose precondition deliberately makes part of the body unreachable
+        # (reachability is established by the sibling variant of the same unit)
+        r.cover = {'skipped': 'variant restricts the precondition; see sibling variant'}
+    elif unit.cover and not r.failed and unit.mode == 'unwound':
         cgb = os.path.join(bdir, vname + '.canary.gb')
         cmd = ['goto-cc'] + dflags + ['-DCXC_CANARY=1', '--function', unit.entry, cpath, '-o', cgb]
         rc, out, err, dt = run(cmd, 120)
